@@ -24,9 +24,20 @@ type answer struct {
 
 var errCustom = errors.New("verif: injected source failure")
 
+// errTemporary looks like a transient network/OS error (Temporary() and Timeout() true).
+type tempErr struct{}
+
+func (tempErr) Error() string   { return "verif: resource temporarily unavailable" }
+func (tempErr) Temporary() bool { return true }
+func (tempErr) Timeout() bool   { return true }
+
+var errTemporary error = tempErr{}
+
 // scriptedReader delivers the fixed stream pattern[0], pattern[1], ... cut as
 // the script says; after the script it fills whatever is asked (default answer).
 type scriptedReader struct {
+	sticky    bool // once an answer carried an error, every later read fails the same way
+	stuck     error
 	script    []answer
 	pos       int // next answer
 	delivered int // bytes handed out so far
@@ -44,6 +55,9 @@ func (r *scriptedReader) Read(p []byte) (int, error) {
 	if r.reads > 10000 {
 		return 0, errors.New("verif: read budget exhausted (harness horizon)")
 	}
+	if r.stuck != nil {
+		return 0, r.stuck
+	}
 	n, err := len(p), error(nil)
 	if r.pos < len(r.script) {
 		a := r.script[r.pos]
@@ -58,7 +72,55 @@ func (r *scriptedReader) Read(p []byte) (int, error) {
 		p[i] = streamByte(r.delivered + i)
 	}
 	r.delivered += n
+	if err != nil && r.sticky {
+		r.stuck = err
+	}
 	return n, err
+}
+
+// Variants of the scripted source that additionally implement interfaces an implementation might
+// probe for (size hints, byte-wise reading, bulk copy). Their Read behaviour is the same script.
+type lenReader struct{ *scriptedReader }
+
+func (r lenReader) Len() int { return 1 << 20 }
+
+type byteReader struct{ *scriptedReader }
+
+func (r byteReader) ReadByte() (byte, error) {
+	var b [1]byte
+	for {
+		n, err := r.Read(b[:])
+		if n == 1 {
+			return b[0], nil
+		}
+		if err != nil {
+			return 0, err
+		}
+	}
+}
+
+type writerToReader struct{ *scriptedReader }
+
+func (r writerToReader) WriteTo(w io.Writer) (int64, error) {
+	var total int64
+	buf := make([]byte, 7)
+	for total < 4096 {
+		n, err := r.Read(buf)
+		if n > 0 {
+			m, werr := w.Write(buf[:n])
+			total += int64(m)
+			if werr != nil {
+				return total, werr
+			}
+		}
+		if err == io.EOF {
+			return total, nil
+		}
+		if err != nil {
+			return total, err
+		}
+	}
+	return total, nil
 }
 
 func scriptString(s []answer) string {
@@ -74,6 +136,8 @@ func scriptString(s []answer) string {
 			fmt.Fprintf(&b, "%d+EOF", a.n)
 		case a.err == io.ErrUnexpectedEOF:
 			fmt.Fprintf(&b, "%d+UEOF", a.n)
+		case a.err == errTemporary:
+			fmt.Fprintf(&b, "%d+TEMP", a.n)
 		default:
 			fmt.Fprintf(&b, "%d+ERR", a.n)
 		}
@@ -93,6 +157,8 @@ func parseScript(s string) []answer {
 				a.err = io.EOF
 			case "UEOF":
 				a.err = io.ErrUnexpectedEOF
+			case "TEMP":
+				a.err = errTemporary
 			default:
 				a.err = errCustom
 			}
@@ -104,10 +170,21 @@ func parseScript(s string) []answer {
 
 // runScript executes NewMnemonic(n, lang) over the script and checks the
 // fail-closed / exact-bytes oracle. It returns a description of the defect or "".
-func runScript(m *ref.Model, n, l int, script []answer) (bad string, outcome string) {
+func runScript(m *ref.Model, n, l int, script []answer, sticky bool, variant ...string) (bad string, outcome string) {
 	N := n + n/3
-	src := &scriptedReader{script: script}
-	prev := bip39.VerifSwapRandSource(src)
+	src := &scriptedReader{script: script, sticky: sticky}
+	var reader io.Reader = src
+	if len(variant) > 0 {
+		switch variant[0] {
+		case "len":
+			reader = lenReader{src}
+		case "byte":
+			reader = byteReader{src}
+		case "writerto":
+			reader = writerToReader{src}
+		}
+	}
+	prev := bip39.VerifSwapRandSource(reader)
 	var got string
 	var err error
 	pn := call(func() { got, err = bip39.NewMnemonic(n, Langs[l]) })
@@ -118,6 +195,7 @@ func runScript(m *ref.Model, n, l int, script []answer) (bad string, outcome str
 	// how many bytes did the source deliver before it first failed?
 	deliveredBeforeFailure := 0
 	failed := false
+	var failedWith error
 	for _, a := range script {
 		k := a.n
 		if deliveredBeforeFailure+k > N {
@@ -126,6 +204,7 @@ func runScript(m *ref.Model, n, l int, script []answer) (bad string, outcome str
 		deliveredBeforeFailure += k
 		if a.err != nil {
 			failed = true
+			failedWith = a.err
 			break
 		}
 		if deliveredBeforeFailure >= N {
@@ -140,6 +219,11 @@ func runScript(m *ref.Model, n, l int, script []answer) (bad string, outcome str
 		return m.Encode(e, l)
 	}
 	if failed && deliveredBeforeFailure < N {
+		if !sticky && failedWith == errTemporary && err == nil && got == want() {
+			// a source that reports a temporary condition and then recovers: retrying and then
+			// encoding exactly the first N delivered bytes is a defensible reading of the property
+			return "", "retried-transient-error"
+		}
 		if got != "" || err == nil {
 			return fmt.Sprintf("source failed after %d of %d bytes but NewMnemonic returned (%q, %v)", deliveredBeforeFailure, N, got, err), "accepted-partial"
 		}
@@ -159,7 +243,23 @@ func runScript(m *ref.Model, n, l int, script []answer) (bad string, outcome str
 		}
 		return "", "boundary-success"
 	}
-	// the source never fails before N bytes: must succeed with exactly those bytes
+	// the source never fails before N bytes: must succeed with exactly those bytes. A source that
+	// answers (0, nil) many times in a row is making no progress; giving up with an error (and the
+	// empty string) is then as acceptable as waiting: only a wrong or partial mnemonic is a defect.
+	zeroRun, maxZeroRun := 0, 0
+	for _, a := range script {
+		if a.n == 0 && a.err == nil {
+			zeroRun++
+			if zeroRun > maxZeroRun {
+				maxZeroRun = zeroRun
+			}
+		} else {
+			zeroRun = 0
+		}
+	}
+	if maxZeroRun >= 16 && err != nil && got == "" {
+		return "", "gave-up-on-no-progress"
+	}
 	if err != nil || got != want() {
 		return fmt.Sprintf("source delivered %d bytes in %d reads without failing, got (%q, %v), want (%q, nil)", src.delivered, src.reads, got, err, want()), "wrong"
 	}
@@ -170,7 +270,7 @@ func runScript(m *ref.Model, n, l int, script []answer) (bad string, outcome str
 }
 
 func runC06(c *Ctx) {
-	c.res.Rule = "NewMnemonic under a scripted randomness source whose stream has a distinct value at every offset; a script is a list of answers (k bytes, error) and every script of the following families is executed, for each n in {12,15,18,21,24} (N=4n/3), language rotating over all ten: (a) every failure point k in [0,N) x kind {EOF, ErrUnexpectedEOF, custom} x j in [0,N-k] bytes returned alongside, after every fragmentation of the first k bytes with <=2 cuts; (b) every fragmentation of a successful delivery: all compositions of N for N=16 (quick) and N=16,20,24 (thorough), all with <=4 cuts otherwise; (c) <=2 zero-length reads inserted anywhere into every <=2-cut fragmentation; (d) over-long answers. Oracle: fewer than N bytes before the failure => (\"\", err != nil); otherwise the reference encoding of the first N delivered bytes with n words and nil error. distinct_nontrivial = distinct (n, script) cases with at least one deviation from the default answer"
+	c.res.Rule = "NewMnemonic under a scripted randomness source whose stream has a distinct value at every offset; a script is a list of answers (k bytes, error) and every script of the following families is executed, for each n in {12,15,18,21,24} (N=4n/3), language rotating over all ten: (a) every failure point k in [0,N) x kind {EOF, ErrUnexpectedEOF, custom, temporary-looking} x j in [0,N-k] bytes returned alongside, after every fragmentation of the first k bytes with <=2 cuts, each once with a source that recovers after the failure and once with a source that keeps failing; (b) every fragmentation of a successful delivery: all compositions of N for N=16 (quick) and N=16,20,24,28 (thorough), otherwise all with <=4 cuts (N=32 thorough: <=6); (c) <=2 zero-length reads inserted anywhere into every <=2-cut fragmentation, and runs of 3..2000 zero-length reads at three offsets (giving up with an error is accepted there); (d) over-long answers; (e) the same scripts on sources that additionally implement Len(), ReadByte() or WriteTo(). Oracle: fewer than N bytes before the failure => (\"\", err != nil); otherwise the reference encoding of the first N delivered bytes with n words and nil error. distinct_nontrivial = distinct (n, script) cases with at least one deviation from the default answer"
 	c.Assume("verif hook VerifSwapRandSource swaps the package-level source; deviations = short read, zero-length read, error with/without bytes")
 	outcomes := map[string]int64{}
 	var idx, distinct int64
@@ -178,12 +278,14 @@ func runC06(c *Ctx) {
 		idx++
 		return int((idx-1)%int64(c.NShard)) == c.Shard
 	}
+	sticky := false
+	variant := ""
 	exec := func(n int, script []answer, family string) {
 		if !mine() {
 			return
 		}
 		l := int(idx % ref.NLang)
-		bad, out := runScript(c.M, n, l, script)
+		bad, out := runScript(c.M, n, l, script, sticky, variant)
 		c.Eval(1)
 		outcomes[out]++
 		if len(script) > 0 {
@@ -191,8 +293,8 @@ func runC06(c *Ctx) {
 		}
 		if bad != "" {
 			ss := scriptString(script)
-			c.Violate(fmt.Sprintf("script:%d:%d:%s", n, l, ss), fmt.Sprintf("NewMnemonic(%d,%s) with source script [%s] (%s): %s", n, ref.LangNames[l], ss, family, bad),
-				map[string]interface{}{"kind": "script", "count": n, "lang": l, "script": ss})
+			c.Violate(fmt.Sprintf("script:%d:%d:%s:%v:%s", n, l, ss, sticky, variant), fmt.Sprintf("NewMnemonic(%d,%s) with source script [%s] (%s, failures sticky=%v, source variant %q): %s", n, ref.LangNames[l], ss, family, sticky, variant, bad),
+				map[string]interface{}{"kind": "script", "count": n, "lang": l, "script": ss, "sticky": sticky, "variant": variant})
 		}
 		if idx%100003 == 1 {
 			c.Sample(6, map[string]interface{}{"n": n, "lang": ref.LangNames[l], "script": scriptString(script), "outcome": out, "family": family})
@@ -214,7 +316,7 @@ func runC06(c *Ctx) {
 			compose(total-first, maxCuts-1, append(prefix, first), f)
 		}
 	}
-	kinds := []error{io.EOF, io.ErrUnexpectedEOF, errCustom}
+	kinds := []error{io.EOF, io.ErrUnexpectedEOF, errCustom, errTemporary}
 	for _, n := range []int{12, 15, 18, 21, 24} {
 		N := n + n/3
 		// (a) failures
@@ -228,17 +330,24 @@ func runC06(c *Ctx) {
 							s = append(s, answer{p, nil})
 						}
 						s = append(s, answer{j, kind})
+						sticky = false
 						exec(n, s, "failure")
-						na++
+						sticky = true
+						exec(n, s, "failure")
+						sticky = false
+						na += 2
 					}
 				}
 			})
 		}
-		c.AddScope(fmt.Sprintf("n=%d (a) failure point x kind x bytes alongside x <=2-cut prefix fragmentation", n), na, true, "")
+		c.AddScope(fmt.Sprintf("n=%d (a) failure point x 4 kinds x bytes alongside x <=2-cut prefix fragmentation x {recovering, sticky}", n), na, true, "")
 		// (b) fragmentations of a successful delivery
 		maxCuts := 4
-		if N == 16 || (c.Thorough && N <= 24) {
+		if N == 16 || (c.Thorough && N <= 28) {
 			maxCuts = N - 1
+		}
+		if c.Thorough && N == 32 {
+			maxCuts = 6
 		}
 		var nb int64
 		compose(N, maxCuts, nil, func(parts []int) {
@@ -283,6 +392,59 @@ func runC06(c *Ctx) {
 			}
 		})
 		c.AddScope(fmt.Sprintf("n=%d (c) <=2 zero-length reads in <=2-cut fragmentations", n), nc, true, "")
+		// (c') long runs of zero-length reads at the start, in the middle and before the last byte
+		var nz int64
+		for _, run := range []int{3, 15, 16, 50, 99, 100, 101, 500, 2000} {
+			for _, at := range []int{0, N / 2, N - 1} {
+				var s []answer
+				if at > 0 {
+					s = append(s, answer{at, nil})
+				}
+				for z := 0; z < run; z++ {
+					s = append(s, answer{0, nil})
+				}
+				s = append(s, answer{N - at, nil})
+				exec(n, s, "zero-run")
+				nz++
+			}
+		}
+		c.AddScope(fmt.Sprintf("n=%d (c') runs of 3..2000 zero-length reads at three offsets", n), nz, true, "")
+		// (e) the same source also offering Len() / ReadByte() / WriteTo(): <=2-cut fragmentations and
+		// failures after <=1-cut prefixes
+		var nv int64
+		for _, v := range []string{"len", "byte", "writerto"} {
+			variant = v
+			compose(N, 2, nil, func(parts []int) {
+				s := make([]answer, len(parts))
+				for i, p := range parts {
+					s[i] = answer{p, nil}
+				}
+				exec(n, s, "fragmentation")
+				nv++
+			})
+			for k := 0; k < N; k++ {
+				compose(k, 1, nil, func(parts []int) {
+					for _, kind := range kinds {
+						for _, j := range []int{0, 1, N - k} {
+							if j > N-k {
+								continue
+							}
+							s := make([]answer, 0, len(parts)+1)
+							for _, p := range parts {
+								s = append(s, answer{p, nil})
+							}
+							s = append(s, answer{j, kind})
+							sticky = true
+							exec(n, s, "failure")
+							sticky = false
+							nv++
+						}
+					}
+				})
+			}
+		}
+		variant = ""
+		c.AddScope(fmt.Sprintf("n=%d (e) sources that also implement Len / ReadByte / WriteTo", n), nv, true, "")
 		// (d) answers longer than asked, EOF right at the end, trailing failure after completion
 		for _, s := range [][]answer{{{N + 5, nil}}, {{N, io.EOF}}, {{N, nil}, {0, io.EOF}}, {{N - 1, nil}, {1, errCustom}}, {{N - 1, nil}, {0, nil}, {0, io.EOF}}, {}} {
 			exec(n, s, "edge")
